@@ -170,6 +170,7 @@ type State struct {
 	inLibrary int
 	globalWrites []string
 	sharedWrites []string
+	frozenObjs []*Obj
 	libFn map[*ssa.Function]bool
 	usedUF bool // the path used an uninterpreted function (its model need not replay natively)
 	known map[int]*Term // terms pinned to a constant by a taken equality on this path
